@@ -73,6 +73,8 @@ def build(v):
     if '$opaque' in v:
         if v['$opaque'] == 'deck':
             return resolve('pokerkit.utilities.Deck').STANDARD
+        if v['$opaque'] == 'the-record':        # an arbitrary operation record
+            return resolve('pokerkit.state.NoOperation')(commentary='the-record')
         return None
     if '$handtype' in v:
         return resolve('pokerkit.hands.StandardHighHand')
